@@ -11,6 +11,7 @@ for pid in "$@"; do
   for m in ${VARIANTS:-A B C D E F}; do
     f=/verif/seeded/$pid$m/patch.diff
     [ -f "$f" ] || continue
+    if grep -q '"status": "neutralised"' /verif/seeded/$pid$m/meta.json 2>/dev/null; then echo "$pid$m NEUTRALISED (see meta.json)"; continue; fi
     git -C $wt checkout -q -- . 
     if ! git -C $wt apply "$f" 2>/dev/null; then echo "$pid$m: patch does not apply"; continue; fi
     out=$(RMK_REPO=$wt ${EXTRA_ENV:-} ./check $pid quick 2>&1 | tail -3 | tr '\n' ' ')
